@@ -28,10 +28,13 @@ pub fn run(rep: &mut Report, thorough: bool) {
     let exe = std::env::current_exe().unwrap();
     let bin = exe.parent().unwrap().join("c19_child");
     let bin = bin.to_str().unwrap().to_string();
+    // the same child built without optimisation (target/unopt), when present
+    let unopt = exe.parent().unwrap().parent().unwrap().join("unopt").join("c19_child");
+    let unopt = if unopt.exists() { Some(unopt.to_str().unwrap().to_string()) } else { None };
     let depths: Vec<usize> = if thorough { vec![100, 1_000, 10_000, 100_000, 1_000_000] } else { vec![100, 1_000, 10_000, 100_000] };
     let mut sr = StreamReport::new(
         "nesting-depth",
-        "one child process per (construct in {unary minus, not, left-deep binary, right-nested binary, user call, built-in call, list, map, else-chain, index chain, parentheses — nested n deep; flat list, flat map, flat list of calls / steps / negations, string literal, identifier — n items or characters long at depth 1; unclosed parentheses, unclosed mixed brackets, balanced parentheses around a syntax error — texts that do not parse}, operation in {Expr::parse, Rule::parse, Rule::parse with the construct in a metadata constant, drop, display, clone, ==, evaluate, display of the evaluated value}, depth in {1e2, 1e3, 1e4, 1e5 (thorough also 1e6)}, thread in {main, 2 MiB worker}); the exit status tells whether the process survived; for each crashing pair the threshold is located by bisection",
+        "one child process per (construct in {unary minus, not, left-deep binary, right-nested binary, user call, built-in call, list, map, else-chain, index chain, parentheses — nested n deep; flat list, flat map, flat list of calls / steps / negations, string literal, identifier — n items or characters long at depth 1; unclosed parentheses, unclosed mixed brackets, balanced parentheses around a syntax error — texts that do not parse}, operation in {Expr::parse, Rule::parse, Rule::parse with the construct in a metadata constant, drop, display, clone, ==, evaluate, display of the evaluated value}, depth in {1e2, 1e3, 1e4, 1e5 (thorough also 1e6)}, thread in {main, 2 MiB worker}, build in {the harness profile (optimised, overflow checks on), unoptimised}); the exit status tells whether the process survived; for each crashing pair the threshold is located by bisection",
         true,
     );
     let mut jobs = vec![];
@@ -48,7 +51,10 @@ pub fn run(rep: &mut Report, thorough: bool) {
             if matches!(c, "unclosed-parens" | "unclosed-brackets" | "bad-tail") && !op.starts_with("parse") {
                 continue;
             }
-            for th in ["main", "worker"] {
+            for th in ["main", "worker", "main-unopt", "worker-unopt"] {
+                if th.ends_with("-unopt") && unopt.is_none() {
+                    continue;
+                }
                 jobs.push((c, op, th));
             }
         }
@@ -63,6 +69,7 @@ pub fn run(rep: &mut Report, thorough: bool) {
                 .enumerate()
                 .map(|(ci, js)| {
                     let bin = bin.clone();
+                    let unopt = unopt.clone();
                     let depths = depths.clone();
                     sc.spawn(move || {
                         let mut r = vec![];
@@ -72,7 +79,7 @@ pub fn run(rep: &mut Report, thorough: bool) {
                             let mut last_ok = 0;
                             for d in &depths {
                                 runs += 1;
-                                match run_child(&bin, c, op, *d, th) {
+                                match run_child(if th.ends_with("-unopt") { unopt.as_ref().unwrap() } else { &bin }, c, op, *d, th.trim_end_matches("-unopt")) {
                                     Some(true) => last_ok = *d,
                                     _ => {
                                         crash = Some(*d);
@@ -86,7 +93,7 @@ pub fn run(rep: &mut Report, thorough: bool) {
                                 while hi - lo > (hi / 10).max(1) {
                                     let mid = (lo + hi) / 2;
                                     runs += 1;
-                                    if run_child(&bin, c, op, mid, th) == Some(true) {
+                                    if run_child(if th.ends_with("-unopt") { unopt.as_ref().unwrap() } else { &bin }, c, op, mid, th.trim_end_matches("-unopt")) == Some(true) {
                                         lo = mid;
                                     } else {
                                         hi = mid;
